@@ -604,3 +604,7 @@ func init() {
 	mut("C14", "pg length buffer constructed with 2 bytes", "decryptor/postgresql/packet_handler.go", "		descriptionLengthBuf: make([]byte, 4),", "		descriptionLengthBuf: make([]byte, 2),", "R14.1", "descriptionLengthBuf")
 	mut("C14", "prepare response parsed without its length check", "decryptor/mysql/column_field.go", "	if len(data) != PreparedStatementResponseLength {\n		return nil, ErrInvalidResponseLength\n	}\n", "", "R14.1", "ParsePrepareStatementResponse")
 }
+
+func init() {
+	mut("C14", "length field re-read between its check and its use", "decryptor/postgresql/packet_handler.go", "	// the declared length comes from the other side: reserve a bounded amount up front,\n	// the buffer grows with the data that actually arrives\n	if packet.dataLength > maxPacketPreallocation {", "	packet.setDataLengthBuffer(packet.descriptionLengthBuf)\n	if packet.dataLength > maxPacketPreallocation {", "R14.3", "Grow")
+}
